@@ -25,6 +25,8 @@ struct Sc {
     visitors: usize,
     /// the signal arrives when the pooler has already been up for longer than shutdown_timeout
     late_signal: bool,
+    /// clients that have sent part of an extended-protocol batch (no Sync yet) when the signal arrives
+    mid_batch: usize,
 }
 
 #[derive(Debug)]
@@ -38,6 +40,11 @@ enum ClientReport {
         completed: bool,
         detail: String,
         t_done: u64,
+    },
+    MidBatch {
+        /// a NEW transaction started >= 300 ms after the signal was served
+        served_new_transaction: bool,
+        detail: String,
     },
 }
 
@@ -67,7 +74,7 @@ fn scenario(sc: &Sc, rep: &Report) -> Result<(), String> {
     if sc.visitors > 0 {
         sleep_ms(30);
     }
-    let ready = Arc::new(std::sync::Barrier::new(sc.idle + sc.in_txn + 1));
+    let ready = Arc::new(std::sync::Barrier::new(sc.idle + sc.in_txn + sc.mid_batch + 1));
     for i in 0..sc.idle {
         let addr = addr.clone();
         let ready = ready.clone();
@@ -168,6 +175,53 @@ fn scenario(sc: &Sc, rep: &Report) -> Result<(), String> {
                 detail,
                 t_done,
             })
+        }));
+    }
+    for i in 0..sc.mid_batch {
+        let addr = addr.clone();
+        let ready = ready.clone();
+        let t_sig = t_sig.clone();
+        hs.push(std::thread::spawn(move || -> Result<ClientReport, String> {
+            let cid = format!("mb{}", i);
+            let mut c = Conn::connect(&addr, &StartupOpts::new(USER, "db", PASS).app(&cid)).map_err(|e| format!("{} connect: {}", cid, e))?;
+            c.query(&format!("SELECT 1 {}", tag(&cid, &format!("{}.q1", cid), "")), 5000).map_err(|(m, e)| format!("{} warmup: {:?} {}", cid, e, summarize(&m)))?;
+            // part of a batch, no Sync: the client is between transactions as far as any server knows
+            let mut b = crate::proto::parse("", &format!("SELECT 1 {}", tag(&cid, &format!("{}.q2", cid), "rows=1")), &[]);
+            if i % 2 == 0 {
+                b.extend(crate::proto::bind("", "", &[], &[], &[]));
+                b.extend(crate::proto::execute("", 0));
+            }
+            c.send(&b).map_err(|e| e.to_string())?;
+            ready.wait();
+            while t_sig.load(Ordering::SeqCst) == 0 {
+                sleep_ms(1);
+            }
+            sleep_ms(60);
+            // finish the batch (either outcome is fine: completed, or told about the shutdown)
+            let mut rest = vec![];
+            if i % 2 != 0 {
+                rest.extend(crate::proto::bind("", "", &[], &[], &[]));
+                rest.extend(crate::proto::execute("", 0));
+            }
+            rest.extend(crate::proto::sync());
+            let _ = c.send(&rest);
+            let first = c.read_until_ready(5000);
+            sleep_ms(300);
+            // a NEW transaction now must not be served any more
+            let mut served = false;
+            let mut detail = format!("batch: {}", match &first { Ok(m) => summarize(m), Err((m, e)) => format!("{:?} {}", e, summarize(m)) });
+            for k in 0..2 {
+                match c.query(&format!("SELECT 1 {}", tag(&cid, &format!("{}.new{}", cid, k), "rows=1")), 3000) {
+                    Ok(m) if crate::wire::first_error(&m).is_none() && !crate::wire::row_idents(&m).is_empty() => {
+                        served = true;
+                        detail = format!("{}; new transaction {} answered {}", detail, k, summarize(&m));
+                    }
+                    _ => break,
+                }
+                sleep_ms(100);
+            }
+            let _ = c.drain_to_eof(2000);
+            Ok(ClientReport::MidBatch { served_new_transaction: served, detail })
         }));
     }
     let mut adm = if sc.admin_client || sc.signal == "admin_shutdown" {
@@ -282,6 +336,16 @@ fn scenario(sc: &Sc, rep: &Report) -> Result<(), String> {
                     );
                 }
             }
+            ClientReport::MidBatch { served_new_transaction, detail } => {
+                rep.count("mid_batch_clients_checked", 1);
+                if graceful && *served_new_transaction {
+                    rep.violation(
+                        &format!("C17|client_mid_batch_at_the_signal_kept_being_served_new_transactions|signal={}", sc.signal),
+                        &format!("a transaction-mode client had sent part of an extended-protocol batch when {} arrived; more than 300 ms after finishing that batch it could still start new transactions: {}", sc.signal, detail),
+                        json!({"scenario": format!("{:?}", sc)}),
+                    );
+                }
+            }
             ClientReport::InTxn {
                 completed,
                 detail,
@@ -354,7 +418,7 @@ pub fn run(tier: &str) -> i32 {
         "C17",
         tier,
         "exploration",
-        "scenario = one pgcat process with 0-10 idle and 0-6 mid-transaction clients (0-600 ms of work left), 0-3 earlier visitors that already left, every client starting either with StartupMessage or with SSLRequest answered 'N' then plain text, optional admin connection, shutdown_timeout 0.5-8 s, signal (a third of them sent when the pooler has been up for longer than shutdown_timeout) in {SIGINT, admin SHUTDOWN, SIGTERM, SIGINT twice}; oracle = waitpid time/status from the parent, replies seen by each population member, login attempts after the 'Got SIGINT' log line; distinct = distinct population/timing classes",
+        "scenario = one pgcat process with 0-10 idle, 0-6 mid-transaction and 0-2 mid-batch (Parse/Bind sent, no Sync yet) clients (0-600 ms of work left), 0-3 earlier visitors that already left, every client starting either with StartupMessage or with SSLRequest answered 'N' then plain text, optional admin connection, shutdown_timeout 0.5-8 s, signal (a third of them sent when the pooler has been up for longer than shutdown_timeout) in {SIGINT, admin SHUTDOWN, SIGTERM, SIGINT twice}; oracle = waitpid time/status from the parent, replies seen by each population member, login attempts after the 'Got SIGINT' log line; distinct = distinct population/timing classes",
     );
     rep.assume("session-mode clients are outside the property's wording and not generated");
     let thorough = rep.thorough();
@@ -378,6 +442,7 @@ pub fn run(tier: &str) -> i32 {
                 admin_client: rng.chance(1, 3),
                 visitors: if rng.chance(1, 2) { rng.range(1, 3) as usize } else { 0 },
                 late_signal: !big_timeout && rng.chance(1, 3),
+                mid_batch: if empty { 0 } else { *rng.pick(&[0, 0, 1, 2]) },
             }
         })
         .collect();
